@@ -176,6 +176,27 @@ CHECKS["C20"] = dict(
           "all-empty run is reported as vacuous (exit 2), never as a pass."),
     design="3/C20 and NOTES-spatial.md", technique="TLA+ exact predicates + TLC-enumerated point sets + TLC trace validation")
 
+CHECKS["C09"] = dict(
+    text=("MarchTable.tla: the REAL 256-row table (exported by a hook, regenerated into MarchTableData.tla on every run) is checked "
+          "exhaustively by TLC for T0-T4 (edges join inside/outside corners, in-cube pairing, face matching for all 12 288 case pairs, "
+          "orientation on face segments); MarchGrid.tla: reference marching on small sign lattices with Closed/Oriented/PositiveVolume "
+          "(Surface.tla), replayed into real canvases placed inside one block, across 100-cell block boundaries and at negative "
+          "coordinates; seeded unions of spheres/boxes/lines at real positions are marched and TraceSurf.tla judges Closed, Oriented, "
+          "NoDegenerate, 6V > 0 and |f(v)| within one cell."),
+    note=("Trusted base: TLC; hook modeling/marching/verif_export.go (tables); cubeCornerPositions transcribed and bound by the replay. "
+          "One open known finding: vertices identified by rounded position merge within 5e-5 cell of a lattice point and pinch the "
+          "surface (repair = identify vertices by lattice edge, not small)."),
+    design="3/C09 and NOTES-surf.md", technique="TLA+ table/lattice specs + TLC exhaustive table check + replay + TLC trace validation")
+CHECKS["C18"] = dict(
+    text=("Surface.tla predicates (Closed and Oriented on position classes, Outward 6V > 0, NormalSide, vertices on the analytic "
+          "surface, rational volume bounds of the inscribed polyhedron and monotone approach to the analytic volume); TLC enumerates "
+          "constructor parameter tuples (rows, columns, sides <= 8 exhaustively, sizes, UV options) plus seeded large counts; the real "
+          "UVSphere / UVSphereUnwelded / Cube.Welded / Cube.UnweldedQuads / Cylinder / Hemisphere outputs are projected and judged by "
+          "TraceSurf.tla."),
+    note=("Trusted base: TLC; volume decided by rational bounds at the precision int32 allows (about 1-2 percent), not by equality "
+          "with a closed form; hemisphere normals are not claimed by the statement."),
+    design="3/C18 and NOTES-surf.md", technique="TLA+ surface predicates + TLC-enumerated parameters + TLC trace validation")
+
 NOT_APPLICABLE = []
 
 
@@ -210,7 +231,7 @@ def main():
             "guard": "verif",
             "enable": "go build -tags verif (harness module /verif/harness with replace => /repo)",
             "baseline_off_cmd": BASE_OFF,
-            "source_commits": ["fc07cc2", "0ec44c3"],
+            "source_commits": ["fc07cc2", "0ec44c3", "589e4eb"],
             "add_only": True,
         },
         "engines": [
